@@ -34,7 +34,7 @@ def validate(rep, wd, trace, side, label):
 
 def repl_scripts(rep, wd, limit):
     tdir = os.path.join(vlib.WORK, "repo-target")
-    p = subprocess.run(["cargo", "build", "--offline", "--quiet", "--manifest-path", "/repo/Cargo.toml", "--target-dir", tdir],
+    p = subprocess.run(["cargo", "build", "--offline", "--quiet", "--manifest-path", os.path.join(vlib.REPO, "Cargo.toml"), "--target-dir", tdir],
                        stdout=subprocess.PIPE, stderr=subprocess.STDOUT, text=True, env=dict(os.environ, RUSTFLAGS="-Awarnings", CARGO_NET_OFFLINE="true"))
     if p.returncode != 0:
         raise vlib.ToolError("cannot build the xeh binary: " + p.stdout[-500:])
